@@ -119,8 +119,31 @@ func (e *Engine) initStringModels() {
 		}
 		return strV(tConcat(parts...))
 	})
+	caseSeq := func(t *Term, lo, hi byte, delta int64) (value, bool) {
+		// a string that is a sequence of characters of known length: per character, no string theory
+		cs, ok := charSeq(t)
+		if !ok {
+			return nil, false
+		}
+		out := make([]*Term, len(cs))
+		for i, c := range cs {
+			if c.isConst() {
+				b := c.n.Int64()
+				if b >= int64(lo) && b <= int64(hi) {
+					b += delta
+				}
+				out[i] = mkInt64(b)
+				continue
+			}
+			out[i] = tIte(tAnd(tCmp(">=", c, mkInt64(int64(lo))), tCmp("<=", c, mkInt64(int64(hi)))), tAdd(c, mkInt64(delta)), c)
+		}
+		return strV(seqStr(out)), true
+	}
 	e.withModel("strings.ToLower", func(fr *frame, a []value) value {
 		ex := fr.i.ex
+		if v, ok := caseSeq(termOf(a[0]), 'A', 'Z', 32); ok {
+			return v
+		}
 		bs := ex.symBytes(termOf(a[0]), "ToLower")
 		parts := make([]*Term, len(bs))
 		for i, b := range bs {
@@ -132,6 +155,9 @@ func (e *Engine) initStringModels() {
 	})
 	e.withModel("strings.ToUpper", func(fr *frame, a []value) value {
 		ex := fr.i.ex
+		if v, ok := caseSeq(termOf(a[0]), 'a', 'z', -32); ok {
+			return v
+		}
 		bs := ex.symBytes(termOf(a[0]), "ToUpper")
 		parts := make([]*Term, len(bs))
 		for i, b := range bs {
@@ -275,6 +301,14 @@ func inSetTerm(b *Term, set string) *Term {
 
 // symBytes returns the bytes of a (possibly symbolic) string, forking on its length.
 func (ex *exec) symBytes(s *Term, what string) []value {
+	if s.op == "str.++" {
+		// part by part: the length bound applies to every symbolic part, constant text may be of any length
+		var out []value
+		for _, p := range s.args {
+			out = append(out, ex.symBytes(p, what)...)
+		}
+		return out
+	}
 	n := ex.concretizeLen(s, what)
 	out := make([]value, n)
 	for i := range out {
